@@ -138,6 +138,7 @@ def parse_value(s, ty):
         s.i += 2; out = bytearray()
         while s.t[s.i] != '"':
             if s.t[s.i] == '\\':
+                if s.t[s.i + 1] == '\\': out.append(0x5c); s.i += 2; continue
                 out.append(int(s.t[s.i + 1:s.i + 3], 16)); s.i += 3
             else:
                 out.append(ord(s.t[s.i])); s.i += 1
